@@ -205,6 +205,15 @@ func (st *State) oblige(kind, detail, goal string, pos token.Pos) {
 	if fc.suppress > 0 {
 		return
 	}
+	// a conjunctive goal is split into one obligation per conjunct: smaller queries, and the failing clause is named
+	if strings.HasPrefix(goal, "(and ") {
+		if parts := topLevelArgs(goal); len(parts) > 1 {
+			for i, p := range parts {
+				st.oblige(kind, fmt.Sprintf("%s.c%d", detail, i+1), p, pos)
+			}
+			return
+		}
+	}
 	if goal == "true" {
 		// still count it: trivially discharged by construction
 		fc.V.trivial++
@@ -578,4 +587,48 @@ func sortedKeys(m map[string]string) []string {
 	}
 	sort.Strings(ks)
 	return ks
+}
+
+// topLevelArgs splits "(op a b c)" into its argument s-expressions.
+func topLevelArgs(t string) []string {
+	if len(t) < 2 || t[0] != '(' || t[len(t)-1] != ')' {
+		return nil
+	}
+	body := t[1 : len(t)-1]
+	k := strings.IndexByte(body, ' ')
+	if k < 0 {
+		return nil
+	}
+	body = body[k+1:]
+	var out []string
+	depth, start := 0, -1
+	for i := 0; i < len(body); i++ {
+		c := body[i]
+		switch {
+		case c == '(':
+			if depth == 0 && start < 0 {
+				start = i
+			}
+			depth++
+		case c == ')':
+			depth--
+			if depth == 0 {
+				out = append(out, body[start:i+1])
+				start = -1
+			}
+		case c == ' ' && depth == 0:
+			if start >= 0 {
+				out = append(out, body[start:i])
+				start = -1
+			}
+		default:
+			if depth == 0 && start < 0 {
+				start = i
+			}
+		}
+	}
+	if start >= 0 {
+		out = append(out, body[start:])
+	}
+	return out
 }
